@@ -152,7 +152,7 @@ Fixpoint bracket_loop (fuel : nat) (s : st) : option st :=
 (* the look-ahead test at the head of scanGroup: str = p.str[p.chrOffset:] *)
 Definition la_check (s : st) : st :=
   match inp s with
-  | 63 :: c :: _ => if (c =? 61) || (c =? 33) then add_err 1 s else s
+  | a :: c :: _ => if (a =? 63) && ((c =? 61) || (c =? 33)) then add_err 1 s else s
   | _ => s
   end.
 
